@@ -6,6 +6,7 @@ import fam_dom
 
 _split = fam_text.Split()
 _codec = fam_text.CodecFam()
+_spelling = fam_text.Spelling()
 
 _stream = fam_stream.Stream()
 _calls = fam_stream.Calls()
@@ -18,8 +19,9 @@ _nesting = fam_stream.Nesting()
 _fuzz = fam_stream.Fuzz()
 _hunks = fam_hunks.HunksFam()
 _dom = fam_dom.Dom()
+_stats = fam_dom.Stats()
 
-FAMILIES = {f.name: f for f in [_split, _codec, _stream, _calls, _foreign, _truncate, _order, _header, _chunk, _nesting, _fuzz, _hunks, _dom]}
+FAMILIES = {f.name: f for f in [_split, _codec, _spelling, _stream, _calls, _foreign, _truncate, _order, _header, _chunk, _nesting, _fuzz, _hunks, _dom, _stats]}
 
 PROPS = {
     'C16': dict(families=[_split], trusted_base=[
